@@ -74,17 +74,20 @@ func Register(sc *Scenario) { Registry[sc.Name] = sc }
 // World is the closed system of one execution: one RPC server behind an http.Server on an
 // in-memory network, plus helpers to create clients on it.
 type World struct {
-	S       *vsched.Sched
-	Net     *vnet.Net
-	RPC     *jsonrpc.RPCServer
-	HTTP    *http.Server
-	Ctx     context.Context
-	Cancel  context.CancelFunc
-	HC      *http.Client
-	mu      sync.Mutex
-	closers []func()
-	connSeq int
-	Mux     *http.ServeMux
+	S      *vsched.Sched
+	Net    *vnet.Net
+	RPC    *jsonrpc.RPCServer
+	HTTP   *http.Server
+	Ctx    context.Context // clients
+	Cancel context.CancelFunc
+	// SrvCtx is the base context of the http.Server (and so of every server-side connection)
+	SrvCtx    context.Context
+	SrvCancel context.CancelFunc
+	HC        *http.Client
+	mu        sync.Mutex
+	closers   []func()
+	connSeq   int
+	Mux       *http.ServeMux
 	// YieldOnWrite makes every vnet write a schedule point.
 	YieldOnWrite bool
 	// YieldOnDial makes every dial a schedule point.
@@ -97,6 +100,7 @@ const Addr = "srv:1"
 func NewWorld(s *vsched.Sched, opts ...jsonrpc.ServerOption) *World {
 	w := &World{S: s}
 	w.Ctx, w.Cancel = context.WithCancel(context.Background())
+	w.SrvCtx, w.SrvCancel = context.WithCancel(context.Background())
 	w.Net = vnet.New(vnet.Hooks{
 		Now: s.Now,
 		BeforeDial: func(a string) {
@@ -140,7 +144,7 @@ func (w *World) Serve() {
 			defer w.S.Release()
 			w.Mux.ServeHTTP(rw, r)
 		}),
-		BaseContext: func(net.Listener) context.Context { return w.Ctx },
+		BaseContext: func(net.Listener) context.Context { return w.SrvCtx },
 	}
 	go func() { _ = w.HTTP.Serve(ln) }()
 }
@@ -172,6 +176,7 @@ func (w *World) HTTPClient(ns string, out interface{}, opts ...jsonrpc.Option) (
 // Teardown releases everything so that the goroutines of the execution can finish.
 func (w *World) Teardown() {
 	w.Cancel()
+	w.SrvCancel()
 	w.Net.CloseAll()
 	if w.HTTP != nil {
 		w.HTTP.Close()
